@@ -460,6 +460,11 @@ CORPUS["C18"] = [
 ]
 
 CORPUS["C19"] = [
+    B('layer index from pressure: searchsorted over the whole reversed table, clamped at the ground layer', (ATM, '    i = np.zeros_like(P, dtype=int)\n    for j in range(1, len(P_b)):\n        i[P_b[j] >= P] = j\n', '    i = np.maximum(len(P_b) - 1 - np.searchsorted(P_b[::-1], P, side="left"), 0)\n')),
+    M('layer index from pressure: whole reversed table, clamped, counted from the right', (ATM, '    i = np.zeros_like(P, dtype=int)\n    for j in range(1, len(P_b)):\n        i[P_b[j] >= P] = j\n', '    i = np.maximum(len(P_b) - 1 - np.searchsorted(P_b[::-1], P, side="right"), 0)\n')),
+    B('layer index from altitude: searchsorted over the whole table minus one, clamped, NaN guarded', (ATM, '    i = np.zeros_like(h, dtype=int)\n    for j in range(1, len(H_b)):\n        i[H_b[j] <= h] = j\n', '    i = np.where(np.isnan(h), 0, np.maximum(np.searchsorted(H_b, h, side="right") - 1, 0))\n')),
+    M('layer index from altitude: whole table minus one, clamped, counted from the left', (ATM, '    i = np.zeros_like(h, dtype=int)\n    for j in range(1, len(H_b)):\n        i[H_b[j] <= h] = j\n', '    i = np.maximum(np.searchsorted(H_b, h, side="left") - 1, 0)\n')),
+    M('layer index from altitude: whole table, clamped, not reduced by one', (ATM, '    i = np.zeros_like(h, dtype=int)\n    for j in range(1, len(H_b)):\n        i[H_b[j] <= h] = j\n', '    i = np.maximum(np.searchsorted(H_b, h, side="right"), 0)\n')),
     B('layer index from altitude by digitize on the layer bases above the ground', (ATM, '    i = np.zeros_like(h, dtype=int)\n    for j in range(1, len(H_b)):\n        i[H_b[j] <= h] = j\n', '    i = np.digitize(h, H_b[1:])\n')),
     M('digitize with right=True (a boundary falls into the lower layer)', (ATM, '    i = np.zeros_like(h, dtype=int)\n    for j in range(1, len(H_b)):\n        i[H_b[j] <= h] = j\n', '    i = np.digitize(h, H_b[1:], right=True)\n')),
     B('layer index from altitude as a count of layer bases at or below h', (ATM, '    i = np.zeros_like(h, dtype=int)\n    for j in range(1, len(H_b)):\n        i[H_b[j] <= h] = j\n', '    i = np.count_nonzero(H_b[1:] <= h[..., np.newaxis], axis=-1)\n')),
